@@ -67,7 +67,9 @@ impl Visitor for Recorder {
         self.events.push(format!("field:{}", x.parser_scoped_identifier()));
     }
     fn visit_parameter(&mut self, x: &Parameter) {
-        self.events.push(format!("parameter:{}", x.parser_scoped_identifier()));
+        // a parameter and a return member may legally share their name: told apart by the list they are in
+        let list = if x.parent().parameters().iter().any(|p| std::ptr::eq(*p, x)) { "parameter" } else { "return" };
+        self.events.push(format!("{list}:{}", x.parser_scoped_identifier()));
     }
     fn visit_enumerator(&mut self, x: &Enumerator) {
         self.events.push(format!("enumerator:{}", x.parser_scoped_identifier()));
@@ -121,7 +123,7 @@ fn expect(n: &Node, scope: &str, r: &crate::model::print::Rendered, out: &mut Ve
             }
         }
         "param" | "ret" => {
-            out.push(ev(format!("parameter:{scoped}")));
+            out.push(ev(format!("{}:{scoped}", if n.kind == "param" { "parameter" } else { "return" })));
             for c in &n.children {
                 if c.kind == "type" {
                     expect_type(c, r, false, out);
@@ -224,6 +226,118 @@ impl Family for VisitOrder {
     }
 }
 
+/// The same programs with one unresolvable reference added: the compilation ends with E033 after the parser, the
+/// references written as names stay UNPATCHED in every file - and the files can still be walked (a library user gets
+/// the state back with its errors): every element once, in source order; a reference that is not patched is
+/// presented and not descended into; nothing panics.
+pub struct WalkAfterErrors {
+    pub inner: Box<dyn ProgFamily>,
+    pub stride: u64,
+}
+impl WalkAfterErrors {
+    fn case(&self, idx: u64) -> PCase {
+        use crate::model::ast::*;
+        let mut c = self.inner.get(idx * self.stride);
+        // (a struct whose field names nothing, behind everything else in the first file that has a module)
+        if let Some(f) = c.program.iter_mut().find(|f| f.module.is_some()) {
+            f.defs.push(st("ZZUnresolved", vec![MField::new("q", MType::seq(MType::named("NopeNope").opt())), MField::new("r", MType::prim("bool"))]));
+        }
+        c
+    }
+}
+impl Family for WalkAfterErrors {
+    fn name(&self) -> String {
+        format!("walk-after-errors/with one unresolvable reference added{}: {}", if self.stride > 1 { format!(", every {}th case", self.stride) } else { String::new() }, self.inner.name())
+    }
+    fn len(&self) -> u64 {
+        (self.inner.len() + self.stride - 1) / self.stride
+    }
+    fn describe(&self, idx: u64) -> Value {
+        describe_case(&self.case(idx))
+    }
+    fn run(&self, idx: u64) -> CaseOut {
+        let case = self.case(idx);
+        let fam = "walk-after-errors";
+        // (the reference that resolves nowhere stays "named:<as written>" in the expected tree; every other one is
+        // patched as usual - the patcher applies what it could resolve)
+        let rendered = render_program(&case.program, &case.layout);
+        let mut out = CaseOut::new(case_hash(&rendered).wrapping_add(1));
+        out.validated = 1;
+        let keep = rendered.clone();
+        if !case.program.iter().any(|f| f.module.is_some()) {
+            out.class = "n/a-no-module".into();
+            return out;
+        }
+        match compile_rendered(rendered, None) {
+            Err((loc, msg)) => out.violate(format!("c20/{fam}/panic-while-compiling@{loc}"), msg),
+            Ok(c) => {
+                let codes: Vec<String> = c.errors().iter().map(|e| e.code.clone()).collect();
+                if !codes.iter().any(|c| c == "E033") {
+                    // (a program whose other parts stop the compilation earlier, e.g. a file without a module)
+                    out.class = format!("n/a-other-errors:{}", codes.first().cloned().unwrap_or_default());
+                    return out;
+                }
+                out.nontrivial = true;
+                let mut total = 0u64;
+                for (i, r) in keep.iter().enumerate() {
+                    let mut rec = Recorder::default();
+                    if let Err((loc, msg)) = guarded(|| c.files[i].visit_with(&mut rec)) {
+                        out.violate(format!("c20/{fam}/panic@{loc}"), format!("walking file {i} of a compilation that ended with E033 panicked at {loc}: {msg}\n--- input ---\n{}", r.text));
+                        continue;
+                    }
+                    let mut exp = vec![Ev { text: format!("file:string-{i}"), optional: false }];
+                    let module_scope = r.tree.children.iter().find(|c| c.kind == "module").and_then(|m| m.get("id")).unwrap_or("").to_string();
+                    for ch in &r.tree.children {
+                        expect(ch, &module_scope, r, &mut exp);
+                    }
+                    // a name that resolves nowhere is an unpatched reference: presented, and not descended into
+                    for e in exp.iter_mut() {
+                        e.text = e.text.replacen("type:named:", "type:unpatched:", 1);
+                    }
+                    let obs = &rec.events;
+                    total += obs.len() as u64;
+                    let (mut ei, mut oi) = (0usize, 0usize);
+                    while ei < exp.len() || oi < obs.len() {
+                        if ei < exp.len() && oi < obs.len() && matches_ev(&exp[ei].text, &obs[oi]) {
+                            ei += 1;
+                            oi += 1;
+                            continue;
+                        }
+                        if ei < exp.len() && exp[ei].optional {
+                            ei += 1;
+                            continue;
+                        }
+                        let e = exp.get(ei).map(|e| e.text.clone()).unwrap_or("<end of traversal>".into());
+                        let o = obs.get(oi).cloned().unwrap_or("<end of traversal>".into());
+                        out.violate(
+                            format!("c20/{fam}/order/expected-{}-got-{}", e.split(':').next().unwrap_or(""), o.split(':').next().unwrap_or("")),
+                            format!("file {i}: callback #{oi}: expected {e}, visitor presented {o}\nexpected sequence: {:?}\nobserved sequence: {obs:?}\n--- input ---\n{}", exp.iter().map(|e| e.text.clone()).collect::<Vec<_>>(), r.text),
+                        );
+                        break;
+                    }
+                    if !obs.iter().any(|e| e.starts_with("type:unpatched:NopeNope")) && r.text.contains("NopeNope") {
+                        out.violate(format!("c20/{fam}/unpatched-reference-not-presented"), format!("file {i} writes the reference NopeNope but the visitor never presented it\n--- input ---\n{}", r.text));
+                    }
+                }
+                out.steps = total;
+                out.class = format!("walked-after-E033:{}-callbacks", (total / 10) * 10);
+            }
+        }
+        out
+    }
+}
+
 pub fn families(tier: &str) -> Vec<Box<dyn Family>> {
-    crate::model::families::program_families(tier).into_iter().map(|f| Box::new(VisitOrder { inner: f }) as Box<dyn Family>).collect()
+    let mut v: Vec<Box<dyn Family>> = crate::model::families::program_families(tier).into_iter().map(|f| Box::new(VisitOrder { inner: f }) as Box<dyn Family>).collect();
+    // walking after errors: the single constructs, the type expressions in every position, the vocabulary, the two-file
+    // alias programs (thorough: also the construct pairs)
+    for (i, f) in crate::model::families::program_families(tier).into_iter().enumerate() {
+        match i {
+            0 | 11 | 12 => v.push(Box::new(WalkAfterErrors { inner: f, stride: 1 })),
+            1 => v.push(Box::new(WalkAfterErrors { inner: f, stride: 3 })),
+            8 if tier != "quick" => v.push(Box::new(WalkAfterErrors { inner: f, stride: 1 })),
+            _ => {}
+        }
+    }
+    v
 }
